@@ -2586,7 +2586,23 @@ def rule_F19(prog):
                     if g["k"] == "call":
                         # a private cell-lookup helper: `cell(&table, i + 1, j)` with body `table.get(&(i, j))..`
                         h, args = _call_target(prog, g)
-                        if h is None or not h.hir or not h.hir.get("body") or h.public:
+                        if h is None:
+                            # a local closure: `let cell = |i, j| table.get(&(i, j)).copied();`
+                            f_ = unwrap(g["f"])
+                            cl = None
+                            if isinstance(f_, dict) and f_.get("k") == "path" and f_.get("res", {}).get("k") == "local":
+                                cl = unwrap(_lets(fn).get(f_["res"]["id"]))
+                            if isinstance(cl, dict) and cl.get("k") == "closure" and len(cl.get("params", [])) == len(g["args"]):
+                                inner = [x for x in find_nodes(cl["body"], lambda n: n["k"] == "mcall" and n["name"] == "get" and n["args"])]
+                                if len(inner) == 1:
+                                    k = unwrap(inner[0]["args"][0])
+                                    while isinstance(k, dict) and k.get("k") == "addrof":
+                                        k = unwrap(k["x"])
+                                    if isinstance(k, dict) and k.get("k") == "tup" and len(k["es"]) == 2:
+                                        amap = {pp.get("name"): origin(a_) for pp, a_ in zip(cl["params"], g["args"])}
+                                        out.append((g, tuple(amap.get(origin(x), origin(x)) for x in k["es"])))
+                            continue
+                        if not h.hir or not h.hir.get("body") or h.public:
                             continue
                         inner = [x for x in find_nodes(h.hir["body"], lambda n: n["k"] == "mcall" and n["name"] == "get" and n["args"])]
                         if len(inner) != 1:
